@@ -155,6 +155,11 @@ package vm
 // termination under the step limit: Execute / executeRaw run only with a positive limit
 //@ func (*VM).executeRaw
 //@   requires vm != nil && vm.maxSteps > 0
+// async blocks (C09): the block runs on state of its own - a fresh future and fresh copies of constants, locals, globals and
+// builtins (values themselves are immutable: no instruction updates an array or object in place) - and publishes its outcome
+// by writing the future's fields before Done is closed: `defer close(future.Done)` is registered first, hence runs last (structural check defer-close-first); awaiters read the fields only after Done is closed
+//@ func (*VM).execAsync
+//@   assertat "go func() {" fresh(future) && fresh(localsCopy) && fresh(globalsCopy) && fresh(builtinsCopy) && fresh(base(constantsCopy)) && fresh(base(asyncBody)) && !closed(future.Done)
 //@ func (*VM).execAsync$1
 //@   requires maxSteps > 0
 //@   callpre (*vm.VM).executeRaw arg0.maxSteps == maxSteps
